@@ -372,21 +372,22 @@ Definition msg_node (name : list Z) (num : Z) (fs : pmsg) : anode :=
   mk_anode K_MESSAGE (encode_elem (VMsg fs)) 0 false LSingular (TMsg name) num.
 
 Theorem getmany_fields_kids S name fs reqs nd :
-  wf_fld S LSingular (TMsg name) (VMsg fs) = true -> plen (encode_elem (VMsg fs)) < 2 ^ 63 ->
-  nd = root_node name (encode_msg fs) \/ (exists num, nd = msg_node name num fs) ->
+  wf_fld S LSingular (TMsg name) (VMsg fs) = true ->
+  (nd = root_node name (encode_msg fs) /\ plen (encode_msg fs) < 2 ^ 63) \/
+  (exists num, nd = msg_node name num fs /\ plen (encode_elem (VMsg fs)) < 2 ^ 63) ->
   NoDup reqs -> (exists n r, reqs = PField n :: r) ->
   a_getmany all_fixes S nd reqs = MOk (many_of_kids (spec_children S LSingular (TMsg name) (VMsg fs)) reqs).
 Proof.
-  intros Hwf Hlen Hnd Hdup [n0 [r0 Er]]. destruct (wf_msg_facts _ _ _ Hwf) as [md [Hfm [Hnodup [Hl64 Hfs]]]].
+  intros Hwf Hnd Hdup [n0 [r0 Er]]. destruct (wf_msg_facts _ _ _ Hwf) as [md [Hfm [Hnodup [Hl64 Hfs]]]].
   destruct (msg_kids_ok md fs Hnodup) as [Hk1 Hk2].
-  change (2 ^ 63) with 9223372036854775808 in Hlen.
+  change (2 ^ 63) with 9223372036854775808 in Hnd.
   assert (Ee : encode_elem (VMsg fs) = varint_enc (plen (encode_msg fs)) ++ encode_msg fs).
   { destruct (wf_singular_facts _ _ _ Hwf) as [_ [_ [_ E]]]. rewrite E. reflexivity. }
-  rewrite Ee, plen_app in Hlen. pose proof (plen_nonneg (varint_enc (plen (encode_msg fs)))) as Hp1. pose proof (plen_nonneg (encode_msg fs)) as Hp2.
+  pose proof (plen_nonneg (varint_enc (plen (encode_msg fs)))) as Hp1. pose proof (plen_nonneg (encode_msg fs)) as Hp2.
   cbn [spec_children]. rewrite Hfm. change (map _ fs) with (map (msg_child md) fs).
   rewrite <- (fill_is_map reqs _ Hdup Hk1 Hk2).
   unfold a_getmany. rewrite Er. rewrite <- Er.
-  destruct Hnd as [-> | [num ->]].
+  destruct Hnd as [[-> Hlen] | [num [-> Hlen]]]; [|rewrite Ee, plen_app in Hlen].
   - unfold root_node, msg_of. cbn [an_t an_raw an_root an_ty negb]. change (K_MESSAGE =? K_MESSAGE) with true. cbn [negb]. rewrite Hfm.
     destruct (fuel_split _ _ (encode_msg_len _ _ _ Hfs)) as [f Ef]. rewrite Ef.
     apply (fields_loop_fill S md fs [] reqs _ 0 (plen reqs) f Hfs Hnodup). cbn [app]. lia.
@@ -748,13 +749,14 @@ Proof.
 Qed.
 
 Theorem getmany_fields S name fs reqs nd num0 :
-  wf_fld S LSingular (TMsg name) (VMsg fs) = true -> plen (encode_elem (VMsg fs)) < 2 ^ 63 ->
-  nd = root_node name (encode_msg fs) \/ (exists num, nd = msg_node name num fs) ->
+  wf_fld S LSingular (TMsg name) (VMsg fs) = true ->
+  (nd = root_node name (encode_msg fs) /\ plen (encode_msg fs) < 2 ^ 63) \/
+  (exists num, nd = msg_node name num fs /\ plen (encode_elem (VMsg fs)) < 2 ^ 63) ->
   reqs_okb is_field_req reqs = true ->
   a_getmany all_fixes S nd reqs = MOk (map (lookup_out S LSingular (TMsg name) num0 (VMsg fs)) reqs).
 Proof.
-  intros Hwf Hlen Hnd Hr. destruct (reqs_okb_facts _ _ Hr) as [Hdup [Hall [s [r [Er Hs]]]]].
-  rewrite (getmany_fields_kids S name fs reqs nd Hwf Hlen Hnd Hdup).
+  intros Hwf Hnd Hr. destruct (reqs_okb_facts _ _ Hr) as [Hdup [Hall [s [r [Er Hs]]]]].
+  rewrite (getmany_fields_kids S name fs reqs nd Hwf Hnd Hdup).
   - f_equal. apply many_is_lookups. eapply Forall_impl; [|exact Hall]. intros a Ha. destruct a; try discriminate Ha.
     apply children_lookup_msg. exact Hwf.
   - destruct s; try discriminate Hs. eauto.
@@ -786,4 +788,100 @@ Proof.
   - f_equal. apply many_is_lookups. eapply Forall_impl; [|exact Hall]. intros a Ha.
     apply (children_lookup_map S kk t num kvs a Hwf); destruct a; try discriminate Ha; [exact Ha|exact Ha|exact I|exact I].
   - exists s, r. split; [exact Er|exact Hs].
+Qed.
+
+(* ================================================================== statements for props/Properties_C07.v *)
+Lemma label_okb_ok lbl t num : label_okb lbl t num = true -> label_ok lbl t num.
+Proof.
+  destruct lbl as [|p|kk]; cbn [label_okb label_ok]; intros H; [exact I| |].
+  - apply andb_true_iff in H as [H H2]. apply andb_true_iff in H as [H0 H1]. apply eqb_prop in H0. apply Z.leb_le in H1, H2. auto.
+  - apply andb_true_iff in H as [H H2]. apply andb_true_iff in H as [H0 H1]. apply Z.leb_le in H1, H2. auto.
+Qed.
+
+Lemma node_domain_facts S lbl t num v : node_domain S lbl t num v = true ->
+  schema_okb S = true /\ schema_packed_okb S = true /\ wf_fld S lbl t v = true /\ label_ok lbl t num /\ plen (node_raw lbl num v) < 2 ^ 63.
+Proof.
+  unfold node_domain. intros H. apply andb_true_iff in H as [H H5]. apply andb_true_iff in H as [H H4].
+  apply andb_true_iff in H as [H H3]. apply andb_true_iff in H as [H1 H2]. apply Z.ltb_lt in H5. apply label_okb_ok in H4. auto.
+Qed.
+
+Lemma root_domain_facts S root m : root_domain S root m = true ->
+  schema_okb S = true /\ schema_packed_okb S = true /\ wf_msg S root m = true /\ plen (encode_msg m) < 2 ^ 63.
+Proof.
+  unfold root_domain. intros H. apply andb_true_iff in H as [H H4].
+  apply andb_true_iff in H as [H H3]. apply andb_true_iff in H as [H1 H2]. apply Z.ltb_lt in H4. auto.
+Qed.
+
+Lemma c07_children_root S root m : root_domain S root m = true ->
+  a_load all_fixes S false (root_node root (encode_msg m)) =
+    TOk (spec_children S LSingular (TMsg root) (VMsg m)) (plen (encode_msg m)) /\
+  payload_of_children S LSingular (TMsg root) 0 (VMsg m) = Some (encode_msg m) /\
+  (forall n, find_kid (PField n) (spec_children S LSingular (TMsg root) (VMsg m)) =
+             child_of_lres (PField n) (plookup_root S root m [PField n])).
+Proof.
+  intros H. destruct (root_domain_facts _ _ _ H) as [_ [HP [Hwf _]]].
+  split; [apply load_root_children; assumption|]. split; [apply payload_cover_msg; exact Hwf|].
+  intros n. apply children_lookup_msg. exact Hwf.
+Qed.
+
+Lemma c07_children_list S p t num q vs : node_domain S (LRepeated p) t num (VList q vs) = true ->
+  a_load all_fixes S false (node_of (LRepeated p) t num (VList q vs)) =
+    TOk (spec_children S (LRepeated p) t (VList q vs)) (plen (node_raw (LRepeated p) num (VList q vs))) /\
+  payload_of_children S (LRepeated p) t num (VList q vs) = Some (node_raw (LRepeated p) num (VList q vs)) /\
+  (forall i, find_kid (PIndex i) (spec_children S (LRepeated p) t (VList q vs)) =
+             child_of_lres (PIndex i) (plookup S (LRepeated p) t num (VList q vs) [PIndex i])).
+Proof.
+  intros H. destruct (node_domain_facts _ _ _ _ _ H) as [_ [_ [Hwf [[Hp Hn] Hlen]]]]. cbn [node_raw] in *.
+  split; [apply (load_list_children S p t num (plen vs) q vs Hp Hn Hwf Hlen)|]. split; [apply payload_cover_list; exact Hwf|].
+  intros i. apply children_lookup_list.
+Qed.
+
+Lemma c07_children_map S kk t num kvs : node_domain S (LMap kk) t num (VMap kvs) = true ->
+  a_load all_fixes S false (node_of (LMap kk) t num (VMap kvs)) =
+    TOk (spec_children S (LMap kk) t (VMap kvs)) (plen (node_raw (LMap kk) num (VMap kvs))) /\
+  payload_of_children S (LMap kk) t num (VMap kvs) = Some (node_raw (LMap kk) num (VMap kvs)) /\
+  (forall st, is_key_req st = true ->
+             find_kid st (spec_children S (LMap kk) t (VMap kvs)) =
+             child_of_lres st (plookup S (LMap kk) t num (VMap kvs) [st])).
+Proof.
+  intros H. destruct (node_domain_facts _ _ _ _ _ H) as [_ [_ [Hwf [[Hkk Hn] Hlen]]]]. cbn [node_raw] in *.
+  split; [apply (load_map_children S kk t num (plen kvs) kvs Hkk Hn Hwf Hlen)|]. split; [apply payload_cover_map; exact Hwf|].
+  intros st Hst. apply (children_lookup_map S kk t num kvs st Hwf); destruct st; try discriminate Hst; try exact I; exact Hst.
+Qed.
+
+Lemma c07_getmany_root S root m reqs : root_domain S root m = true -> reqs_okb is_field_req reqs = true ->
+  a_getmany all_fixes S (root_node root (encode_msg m)) reqs = MOk (map (lookup_out S LSingular (TMsg root) 0 (VMsg m)) reqs).
+Proof.
+  intros H Hr. destruct (root_domain_facts _ _ _ H) as [_ [_ [Hwf Hlen]]].
+  apply (getmany_fields S root m reqs _ 0 Hwf); [left; split; [reflexivity|exact Hlen]|exact Hr].
+Qed.
+
+Lemma c07_getmany_node S lbl t num v reqs :
+  node_domain S lbl t num v = true -> is_container v = true -> reqs_okb (req_kind lbl) reqs = true ->
+  a_getmany all_fixes S (node_of lbl t num v) reqs = MOk (map (lookup_out S lbl t num v) reqs).
+Proof.
+  intros H Hc Hr. destruct (node_domain_facts _ _ _ _ _ H) as [_ [_ [Hwf [Hlo Hlen]]]].
+  destruct lbl as [|p|kk]; cbn [req_kind label_ok node_raw] in *.
+  - destruct v as [| |fs| |]; try discriminate Hc; try (cbn [wf_fld] in Hwf; discriminate).
+    destruct t as [k|name]; [cbn [wf_fld] in Hwf; discriminate|].
+    apply (getmany_fields S name fs reqs _ num Hwf); [right; exists num; split; [reflexivity|exact Hlen]|exact Hr].
+  - destruct v as [| | |q vs|]; try (cbn [wf_fld] in Hwf; discriminate). destruct Hlo as [Hp Hn].
+    apply (getmany_indexes S p t num q vs reqs Hp Hn Hwf Hlen Hr).
+  - destruct v as [| | | |kvs]; try (cbn [wf_fld] in Hwf; discriminate). destruct Hlo as [Hkk Hn].
+    apply (getmany_gets S kk t num kvs reqs Hkk Hn Hwf Hlen Hr).
+Qed.
+
+Lemma c07_interface_node S lbl t num v fuel : node_domain S lbl t num v = true -> (height v <= fuel)%nat ->
+  a_interface fuel all_fixes S (node_of lbl t num v) = IOk (to_gval v).
+Proof.
+  intros H Hh. destruct (node_domain_facts _ _ _ _ _ H) as [HS [HP [Hwf [Hlo Hlen]]]].
+  unfold node_of. rewrite (a_interface_size_num fuel S _ _ (size_of v) 0 false lbl t num num).
+  apply (a_interface_value S lbl t num v fuel HS HP Hwf Hlo Hlen Hh).
+Qed.
+
+Lemma c07_interface_root S root m fuel : root_domain S root m = true -> (height (VMsg m) <= fuel)%nat ->
+  a_interface fuel all_fixes S (root_node root (encode_msg m)) = IOk (to_gval (VMsg m)).
+Proof.
+  intros H Hh. destruct (root_domain_facts _ _ _ H) as [HS [HP [Hwf Hlen]]].
+  apply (a_interface_root S root m fuel HS HP Hwf Hlen Hh).
 Qed.
